@@ -445,6 +445,46 @@ func c14R3(c *Ctx) {
 							}
 						}
 					}
+					// … or a same-package helper that is handed the instance and assigns the field on all of its paths
+					for _, b := range fn.Blocks {
+						for _, in := range b.Instrs {
+							ci, ok := in.(ssa.CallInstruction)
+							if !ok {
+								continue
+							}
+							h := ci.Common().StaticCallee()
+							if h == nil || h.Pkg != fn.Pkg || len(h.Blocks) == 0 {
+								continue
+							}
+							for j, a := range ci.Common().Args {
+								if j >= len(h.Params) || kit.PathOf(a) != base {
+									continue
+								}
+								hg := kit.NewGates()
+								for _, hb := range h.Blocks {
+									for _, hin := range hb.Instrs {
+										if st, ok := hin.(*ssa.Store); ok {
+											if fa, ok := st.Addr.(*ssa.FieldAddr); ok && fa.X == ssa.Value(h.Params[j]) && kit.SameField(kit.FieldOf(fa), f) {
+												hg.AddInstr(st, "")
+											}
+										}
+									}
+								}
+								if hg.Empty() {
+									continue
+								}
+								all := true
+								for _, ret := range kit.Returns(h) {
+									if pass, _ := kit.MustPass(ret, hg); !pass {
+										all = false
+									}
+								}
+								if all {
+									g.AddInstr(ci, "helper restoring "+f.Name())
+								}
+							}
+						}
+					}
 					ok := !g.Empty()
 					for _, e := range kit.FailEdges(call) {
 						if pass, _ := kit.AllExitsFromEdge(e, false, kit.ExitSpec{Gates: g}); !pass {
